@@ -24,6 +24,16 @@ package ecdsa
 //@   requires p.logger != nil
 //@   ghost-var sent bool
 //@   ghost-var parsed bool
+//@   ghost-var located int
+//@   ghost-var looked bool
+//@   on-call tss.NewPartyID(ident, moniker, k):
+//@     assert [transport-key] k != nil && bigval(k) == from
+//@   after-call (*party).locatePartyIndex(pp, pid):
+//@     ghost located = result
+//@     ghost looked = true
+//@   on-call tss.ParseWireMessage(b, pid, bc):
+//@     assert [index-of-sender] pid == id && looked && id.Index == located
+//@     assert [the-bytes]       same(b, msgBytes) && bc == broadcast
 //@   on-call msg.GetFrom():
 //@     ghost parsed = true
 //@   on-send p.in(v):
@@ -32,6 +42,16 @@ package ecdsa
 //@     ghost sent = true
 //@   at return:
 //@     assert [valid-sender-accepted] parsed && key != nil && 0 <= bigval(key) && bigval(key) <= 65535 && bigval(key) == from ==> sent
+//@
+//@ // the sender's position in the session is found by its key (the transport-authenticated identifier), never computed
+//@ func (*party).locatePartyIndex
+//@   props C19
+//@   ghost-var compared int
+//@   on-call bytes.Equal(a, b):
+//@     assert [by-key] same(b, id.Key)
+//@     ghost compared = rangeindex
+//@   at return:
+//@     assert [position-compared] result != -1 ==> result == compared
 //@
 //@ // a signature is returned only for the digest the caller asked to sign: every successful return has passed the comparison
 //@ // of the signed message with the requested one
